@@ -349,15 +349,21 @@ def run(repo: Repo, ctx) -> None:
                     comp = f'slot released at L{a.lineno} in the same segment'
             # (b2) compensation: replacing the connection the holder hands
             # back as broken (counts as closed from that moment)
-            prevs = [p for p, lab in g.nodes[nid].pred if lab == 'n']
-            if comp is None and len(prevs) == 1:
-                pc = [c for c in g.node_calls(g.nodes[prevs[0]])]
-                for c in pc:
+            # (the discard must have happened on *every* path to the
+            # opener: when the connection was instead handed over to another
+            # block it keeps its slot, and a replacement would be one too
+            # many)
+            for d in (g.nodes if comp is None else []):
+                if d.kind != 'stmt':
+                    continue
+                for c in g.node_calls(d):
                     t = pm.resolve(f, c)
                     if t is not None and t.name == '_schedule_discard' \
                             and call.args and c.args \
                             and norm(c.args[0]) == norm(call.args[0]) \
-                            and _param_guard(g, prevs[0], 'discard'):
+                            and _param_guard(g, d.id, 'discard') \
+                            and g.always_before(nid, [d.id]) \
+                            and _seg_clear(g, d.id, nid):
                         comp = ('replacement for the connection discarded '
                                 'on release(discard=True) for the same block')
         ok = guard is not None or comp is not None
@@ -366,6 +372,23 @@ def run(repo: Repo, ctx) -> None:
                'same atomic segment and not a listed compensation',
                f'{f.module.rel()}:{call.lineno}',
                sample=guard or comp)
+    # a reference to the opener that is not a direct call (a callback handed
+    # to call_later / call_soon / partial / create_task) runs later in a
+    # segment of its own: no capacity test or compensation of the scheduling
+    # site still holds by then
+    for f in pm.funcs:
+        called = {id(c.func) for c in ast.walk(f.node)
+                  if isinstance(c, ast.Call)}
+        for a in ast.walk(f.node):
+            if isinstance(a, ast.Attribute) and a.attr == opener.name \
+                    and isinstance(a.ctx, ast.Load) and id(a) not in called:
+                ctx.ob('C15.R2', f'{short(f)}:deferred={opener.name}', False,
+                       f'{opener.name} is handed on as a callback: it will '
+                       f'take a capacity slot in a later segment, where '
+                       f'neither the capacity test nor the released slot of '
+                       f'this site is still valid (other blocks may have '
+                       f'filled the pool meanwhile)',
+                       f'{f.module.rel()}:{a.lineno}')
     # cap += 1 sites: the opener itself and the transfer hand-over, the
     # latter only after the awaited disconnect
     for f in pm.funcs:
